@@ -93,7 +93,7 @@ MYST_OVERRIDES = [
     "disable_syntax: [fragments_join]", "disable_syntax: [front_matter]", "disable_syntax: [footnote_tail]",
     "disable_syntax: [escape, entity, backticks, autolink, html_inline, newline, strikethrough]",
     "fence_as_directive: [note, mermaid]", "fence_as_directive: note", "fence_as_directive: [1]", "fence_as_directive: 1",
-    "number_code_blocks: [python]", "number_code_blocks: python", "words_per_minute: 0", "words_per_minute: -1",
+    "number_code_blocks: [python]", "number_code_blocks: python", "words_per_minute: 100", "words_per_minute: -1",
     "words_per_minute: x", "words_per_minute: 1.5", "words_per_minute: null", "words_per_minute: true",
     "sub_delimiters: ['[', ']']", "sub_delimiters: ab", "sub_delimiters: [a]", "sub_delimiters: ['|', '|']",
     "sub_delimiters: ['\\\\', '\\\\']", "sub_delimiters: ['`', '`']", "sub_delimiters: ['*', '*']",
@@ -442,6 +442,8 @@ def gen_block(rng, depth, sphinx, files):
         return "\n".join(mark + indent(sub((1, 1)), " " * len(mark)).lstrip() for _ in range(rng.randint(1, 3)))
     if k == 7:
         return indent(sub(), "> ")
+    if k == 8 and rng.random() < 0.75:
+        return gen_inline(rng, 0, sphinx)
     if k == 8:
         return pick(rng, ["> ---", "> ***", "- ---", "> > ---", "1. ---\n", "> x\n>\n> ---", "---", "***", "___", "> # h\n> ---",
                           "- > ---", ":::{note}\n---\n:::", "```{note}\n\n---\n```", "[^a]: ---\n\n[^a]", "a\n: ---", ":f: ---",
@@ -601,7 +603,7 @@ def gen_settings(rng, have_linkify, sphinx):
         ("myst_html_meta", [{"a": "b", "c d=e": "f"}, {"": "x", "a": "", "b c": "d"}]),
         ("myst_url_schemes", [{"http": None, "wiki": {"url": "https://w/{{path}}", "title": "{{path}}", "classes": ["c"]}},
                               {"x": "https://y/{{netloc}}/{{bogus}}"}, {}, ["http", "https"]]),
-        ("myst_words_per_minute", [1, 0, 200]),
+        ("myst_words_per_minute", [1, 200, 1000, 200, 1, 60, 0]),
         ("myst_dmath_allow_labels", [False]), ("myst_dmath_allow_space", [False]), ("myst_dmath_allow_digits", [False]),
         ("myst_dmath_double_inline", [True]), ("myst_enable_checkboxes", [True]),
         ("myst_heading_slug_func", ["myst_parser.config.main._test_slug_func", "os.getcwd", "builtins.int", "builtins.len"]),
@@ -636,12 +638,12 @@ def gen_inventory_files(rng, files):
         k = rng.randrange(9)
         if k < 3:
             files[f"{key}.inv"] = {"inv": INV_ENTRIES}
-            invs[key] = ["https://e.org/", f"__DIR__/{key}.inv"]
+            invs[key] = [f"https://{key}.e.org/", f"__DIR__/{key}.inv"]
         elif k == 3:
-            invs[key] = ["https://e.org/", "__DIR__/missing.inv"]
+            invs[key] = [f"https://{key}.e.org/", "__DIR__/missing.inv"]
         elif k == 4:
             files["invdir"] = {"dir": 1}
-            invs[key] = ["https://e.org/", "__DIR__/invdir"]
+            invs[key] = [f"https://{key}.e.org/", "__DIR__/invdir"]
         elif k == 5:
             raw = pick(rng, [b"", b"garbage", b"# Sphinx inventory version 2\n# Project: p\n# Version: 1\n# zlib\nnot-zlib-data",
                              b"# Sphinx inventory version 2\n# Project: p\n# Version: 1\nplain\n", b"# Sphinx inventory version 1\n# Project: p\n# Version: 1\na b\n",
@@ -649,14 +651,14 @@ def gen_inventory_files(rng, files):
                              b"# Sphinx inventory version 2\n# Project: \xff\n# Version: 1\n# zlib\n", b"# Sphinx inventory version 3\n", b"\xff\xfe",
                              b"# Sphinx inventory version 2\n"])
             files[f"{key}.inv"] = {"rawinv": list(raw)}
-            invs[key] = ["https://e.org/", f"__DIR__/{key}.inv"]
+            invs[key] = [f"https://{key}.e.org/", f"__DIR__/{key}.inv"]
         elif k == 6:
             # truncated zlib stream / undecodable content
             files[f"{key}.inv"] = {"inv": INV_ENTRIES, "truncate": rng.randint(1, 30)}
-            invs[key] = ["https://e.org/", f"__DIR__/{key}.inv"]
+            invs[key] = [f"https://{key}.e.org/", f"__DIR__/{key}.inv"]
         elif k == 7:
             files[f"{key}.inv"] = {"inv": [["py", "function", "f\udcff", "a", "-"]] if False else [["py", "function", "f", "a", "\xff"]], "latin1": 1}
-            invs[key] = ["https://e.org/", f"__DIR__/{key}.inv"]
+            invs[key] = [f"https://{key}.e.org/", f"__DIR__/{key}.inv"]
         else:
             invs[key] = [pick(rng, ["http://127.0.0.1:1/", "https://127.0.0.1:1/x"]), None]
     return invs
